@@ -27,6 +27,23 @@ PROPS = {
         note="reference reader + value model (mc/vmodel.c) trusted; glibc strtod as correctly rounded conversion; texts longer/deeper than the families not covered",
         assumptions=COMMON_ASSUMPTIONS + ["strtod of glibc in the C locale is the correctly rounded conversion (pinned by selftest against Python float)"],
     ),
+    "C02": dict(
+        level="model_checking",
+        runs=[dict(harness="c02", variant="fast", shards=16)],
+        deadline=dict(quick=240, thorough=1500),
+        rule="trees built through the API (all byte strings of length 0..2 incl. NUL and invalid UTF-8, escape-relevant bytes at every "
+             "position of runs of length 3..40 crossing the 32-byte buffer growth, integer boundary lattice in both signednesses, "
+             "doubles m*10^e / every binade boundary and neighbours / exponent shapes / retained text, tree family T(2,2,L,{a,'',/}), "
+             "nesting chains to 40) x all 64 flag sets; non-trivial = distinct tree whose text is longer than 6 bytes",
+        bound=dict(quick="2-byte strings with a special byte in either slot; m<=99, e step 7; T(2,2) over 4 leaves",
+                   thorough="all 65,536 2-byte strings; m<=999, every e in -330..310; T(2,2) over 6 leaves"),
+        states_stat="cases", transitions_stat="calls",
+        technique="exhaustive enumeration of API-built trees x all 64 flag sets on the real serializer, judged by a reference reader and round trip",
+        claim="for every enumerated tree and every one of the 64 flag combinations the real serializer's text was read by an independent "
+              "strict RFC 8259 reader and compared with the tree, compared across flag sets modulo whitespace/colour, re-parsed and re-serialized by json-c",
+        note="reference reader trusted; doubles limited to the enumerated decimal/binade families (2^64 bit patterns are not enumerable); custom double formats out of scope",
+        assumptions=COMMON_ASSUMPTIONS,
+    ),
 }
 
 NOT_APPLICABLE = {}
